@@ -48,6 +48,7 @@ def perturbation(seed, index):
         'umask': rng.choice([0o022, 0o077, 0o002, 0o000]),
         'cwd_depth': rng.randint(0, 4),
         'shim': index != 0 and rng.random() < 0.8,   # run 0 is the unperturbed control
+        'stale_outputs': index != 0 and rng.random() < 0.4,  # output directory already holds older files
     }
 
 
@@ -62,6 +63,11 @@ def compile_once(repo, src, workdir, cfg, pert):
         os.symlink(src, os.path.join(cwd, 'in'))
     out = os.path.join(cwd, 'out')
     os.makedirs(out, exist_ok=True)
+    if pert.get('stale_outputs'):
+        for name in ('zone_infos.h', 'zone_infos.cpp', 'zone_infos.py', 'zone_policies.h', 'zone_policies.py',
+                     'zone_registry.cpp', 'zones.txt', 'tzdb.json', '__init__.py'):
+            with open(os.path.join(out, name), 'w') as f:
+                f.write('// stale output of an earlier compilation (%d)\n' % pert['shim_seed'])
     env = {k: v for k, v in os.environ.items() if not k.startswith(('PYTHON', 'LC_', 'LANG'))}
     env.update({'PYTHONHASHSEED': str(pert['hashseed']), 'TZ': pert['tz'], 'LANG': pert['lang'],
                 'LC_ALL': pert['lang'], 'PYTHONDONTWRITEBYTECODE': '1'})
@@ -80,9 +86,13 @@ def compile_once(repo, src, workdir, cfg, pert):
     if p.returncode != 0:
         raise K.HarnessError('tzcompiler failed (cfg %s, perturbation %s):\n%s' % (cfg, pert, p.stderr[-2000:]))
     files = {}
+    stale_marker = b'stale output of an earlier compilation'
     for f in sorted(os.listdir(out)):
         with open(os.path.join(out, f), 'rb') as fh:
-            files[f] = fh.read()
+            data = fh.read()
+        if pert.get('stale_outputs') and stale_marker in data[:80]:
+            continue   # a planted file this configuration does not emit
+        files[f] = data
     return files
 
 
@@ -136,7 +146,7 @@ def run(prop, tier, verif_seed):
     exit_code = 0
     stats = {'compilations': 0, 'files_compared': 0, 'bytes_compared': 0, 'reason_lines_canonicalised': 0,
              'raw_byte_differences_excused': 0}
-    fault_counts = {'hashseed_changed': 0, 'clock_jumping': 0, 'listing_shuffled': 0, 'tz_changed': 0,
+    fault_counts = {'stale_outputs_present': 0, 'hashseed_changed': 0, 'clock_jumping': 0, 'listing_shuffled': 0, 'tz_changed': 0,
                     'locale_changed': 0, 'cwd_depth_changed': 0, 'umask_changed': 0}
     samples = []
     distinct = set()
@@ -159,6 +169,8 @@ def run(prop, tier, verif_seed):
             by_cfg.setdefault(c, []).append((p, files))
             stats['compilations'] += 1
             distinct.add((c, p['hashseed'] != 0, p['shim'], p['tz'], p['lang'], p['cwd_depth'], p['umask']))
+            if p.get('stale_outputs'):
+                fault_counts['stale_outputs_present'] += 1
             if p['hashseed'] != 0:
                 fault_counts['hashseed_changed'] += 1
             if p['shim']:
@@ -249,7 +261,7 @@ def minimise_perturbation(repo, src, root, cfg, ref, pert, base):
     outputs still differ."""
     cur = dict(pert)
     n = [0]
-    for dim in ('shim', 'tz', 'lang', 'umask', 'cwd_depth', 'hashseed'):
+    for dim in ('shim', 'stale_outputs', 'tz', 'lang', 'umask', 'cwd_depth', 'hashseed'):
         trial = dict(cur)
         trial[dim] = base[dim]
         if trial == cur:
